@@ -147,6 +147,29 @@ def run_cases(res: Result, rng: random.Random, tier: str, fails: list):
         if tier != "quick" and len(stream) <= 110:
             for c in all_cut_sets(len(stream), 2):
                 case(fr, cuts_to_chunks(stream, c), "bad-2cut")
+    # 2b. a large frame (undecodable or good) split over several reads, the last of which ends at the frame
+    #     boundary or just behind it, followed by small frames: cuts = (inside the large frame, boundary + d)
+    tiny = [m for m in small if len(m) <= 64] or small
+    for big_kind in ("bad", "good"):
+        for _ in range(2 if tier == "quick" else 10):
+            if big_kind == "bad":
+                body = b"\x00\x00\x01\x08\x40\x00\x01\x00" + gen.rand_bytes(rng, rng.choice([120, 200, 260]))
+                big = gen.rfc_header(1, 20 + len(body), 0x80, 272, 4, rng.getrandbits(32) or 1, rng.getrandbits(32) or 1) + body
+            else:
+                big = max(goods, key=len) if rng.random() < 0.3 else gen.rfc_header(1, 20 + 208, 0x80, 999, 0, 7, 8) + \
+                    gen.rfc_wire(25, 0, 0x40, gen.rand_bytes(rng, 200))
+            pre = [("good", rng.choice(tiny))] if rng.random() < 0.5 else []
+            post = [("good", rng.choice(tiny)) for _ in range(rng.randrange(1, 4))]
+            fr = pre + [(big_kind, big)] + post
+            stream = b"".join(f for _, f in fr)
+            start = sum(len(f) for _, f in pre)
+            end = start + len(big)
+            step = 9 if tier == "quick" else 3
+            for inside in range(start + 1, end, step):
+                for d in (0, 1, 10, 19, 20, 21):
+                    if end + d < len(stream):
+                        case(fr, cuts_to_chunks(stream, [inside, end + d]), "big-" + big_kind)
+                        case(fr, cuts_to_chunks(stream, [inside, end + d] + [end + d + x for x in (5, 25)]), "big-" + big_kind)
     # 3. corrupted header length at every position
     for kind in ("zero", "tiny", "shorter", "longer", "huge"):
         for _ in range(3 if tier == "quick" else 20):
